@@ -779,7 +779,13 @@ pub fn check(tier: Tier) -> i32 {
 		let (n, d) = if tier == Tier::Quick { (3, 2) } else { (4, 2) };
 		let lists = gen(n, d, &[Kind::Set, Kind::SoftDelete, Kind::Replace], &[Phys::FlushAll, Phys::Compact]);
 		let found: Mutex<Vec<(usize, String, String, &'static str)>> = Mutex::new(vec![]);
+		let b1 = Budget::new(if tier == Tier::Quick { 15.0 } else { 300.0 });
+		let done1 = std::sync::atomic::AtomicU64::new(0);
 		lists.par_iter().enumerate().for_each(|(i, l)| {
+			if b1.exhausted() {
+				return;
+			}
+			done1.fetch_add(1, std::sync::atomic::Ordering::Relaxed);
 			for (opt, name) in [(&lsm, "lsm"), (&idx, "index")] {
 				match crate::util::guarded(|| run_history_full(opt, l, false, true)) {
 					Ok(Ok(run)) => {
@@ -792,8 +798,12 @@ pub fn check(tier: Tier) -> i32 {
 				}
 			}
 		});
-		evaluations += 2 * lists.len() as u64;
-		completed.push(format!("reader held open: all {} histories (n={n}, d={d}, flush/compaction) x 2 back-ends with a read transaction begun after the first write and kept open", lists.len()));
+		let d1 = done1.load(std::sync::atomic::Ordering::Relaxed);
+		evaluations += 2 * d1;
+		if (d1 as usize) < lists.len() {
+			all_complete = false;
+		}
+		completed.push(format!("reader held open: {d1} of {} histories (n={n}, d={d}, flush/compaction) x 2 back-ends with a read transaction begun after the first write and kept open", lists.len()));
 		let mut found = found.into_inner().unwrap();
 		found.sort_by_key(|f| f.0);
 		for (i, c, t, name) in found {
@@ -810,7 +820,13 @@ pub fn check(tier: Tier) -> i32 {
 		let (n, d) = if tier == Tier::Quick { (3, 2) } else { (3, 3) };
 		let lists = out_of_order_histories(n, d);
 		let found: Mutex<Vec<(usize, String, String)>> = Mutex::new(vec![]);
+		let b2 = Budget::new(if tier == Tier::Quick { 15.0 } else { 200.0 });
+		let done2 = std::sync::atomic::AtomicU64::new(0);
 		lists.par_iter().enumerate().for_each(|(i, l)| {
+			if b2.exhausted() {
+				return;
+			}
+			done2.fetch_add(1, std::sync::atomic::Ordering::Relaxed);
 			// out-of-order timestamps are only promised with the version index
 			for (opt, name) in [(&idx, "index")] {
 				match crate::util::guarded(|| run_history(opt, l)) {
@@ -844,8 +860,12 @@ pub fn check(tier: Tier) -> i32 {
 				}
 			}
 		});
-		evaluations += lists.len() as u64;
-		completed.push(format!("out-of-order timestamps: all {} set-only histories (3 timestamps in every order, d<={d}), version-index back-end", lists.len()));
+		let d2 = done2.load(std::sync::atomic::Ordering::Relaxed);
+		if (d2 as usize) < lists.len() {
+			all_complete = false;
+		}
+		evaluations += d2;
+		completed.push(format!("out-of-order timestamps: {d2} of {} set-only histories (3 timestamps in every order, d<={d}), version-index back-end", lists.len()));
 		let mut found = found.into_inner().unwrap();
 		found.sort_by_key(|f| f.0);
 		for (i, c, t) in found {
